@@ -414,3 +414,15 @@ package raft
 //@   ensures  positive_needs_quorum: leader && sent(old(v.notifyCh)) != old(sent(v.notifyCh)) ==> v.votes >= v.quorumSize
 //@   ensures  notified_once: sent(old(v.notifyCh)) != old(sent(v.notifyCh)) ==> v.notifyCh == nil
 //@   ensures  silent_after_notification: old(v.notifyCh) == nil ==> v.votes == old(v.votes)
+
+//@ func (r *Raft) electSelf
+//@   requires nonnil: r != nil && r.stable != nil && r.trans != nil && r.logger != nil
+//@   requires term_inv: r.currentTerm == curTermDurable(r)
+//@   requires vote_le_current: voteTerm(r) <= curTermDurable(r)
+//@   requires term_bounded: r.currentTerm < MaxInt63
+//@   ensures  term_bumped: r.currentTerm == old(r.currentTerm) + 1
+//@   ensures  term_inv: r.currentTerm == curTermDurable(r)
+//@   ensures  vote_le_current: voteTerm(r) <= curTermDurable(r)
+//@   ensures  log_untouched: r.lastLogIndex == old(r.lastLogIndex) && r.lastLogTerm == old(r.lastLogTerm) && r.commitIndex == old(r.commitIndex)
+//@   ensures  state_untouched: r.state == old(r.state)
+//@   loop 1 invariant terms: r.currentTerm == curTermDurable(r) && voteTerm(r) <= curTermDurable(r)
